@@ -94,7 +94,7 @@ func switchNodeInfo(moniker string) p2p.NodeInfo {
 	}
 }
 
-var switchClasses = []string{"honest", "other-partys-key", "other-partys-key", "switch-own-key", "own-key+foreign-cached-id", "registered-peers-key", "secp-auth+ed-claim"}
+var switchClasses = []string{"honest", "other-partys-key", "other-partys-key", "switch-own-key", "own-key+foreign-cached-id", "other-partys-key+own-cached-id", "registered-peers-key", "secp-auth+ed-claim"}
 
 func runSwitchID(c *core.Ctx) {
 	r := c.Rng
@@ -153,6 +153,11 @@ func runSwitchID(c *core.Ctx) {
 			claim.PubKey = other
 		case "switch-own-key":
 			claim.PubKey = swKey.PubKey().(crypto.PubKeyEd25519)
+		case "other-partys-key+own-cached-id":
+			// the key of another party, and as sender-cached id the id of the key that was proved (a comparison of
+			// ids instead of keys is satisfied by it)
+			claim.PubKey = other
+			claim.CachePeerID = provedID
 		case "own-key+foreign-cached-id":
 			claim.CachePeerID = []string{p2pcommon.TransPubKeyToStringID(other), "x", string(r.Bytes(8))}[r.Intn(3)]
 		case "registered-peers-key":
